@@ -40,8 +40,10 @@ var pipeTransform = map[string]bool{"msi": true, "jar": true, "apk": true, "xap"
 
 // splitReader hands a stream out in tape-chosen pieces.
 type splitReader struct {
-	r io.Reader
-	t *core.Tape
+	r     io.Reader
+	t     *core.Tape
+	sizes []int
+	next  int
 }
 
 var splitSizes = []int{1, 2, 7, 511, 512, 513, 4095, 4096, 4097, 32768, 65535, 65536, 65537, 1<<20 - 1, 1 << 20, 1<<20 + 1, 2 << 20}
@@ -50,7 +52,15 @@ func (s *splitReader) Read(p []byte) (int, error) {
 	// the previous Read may have been woken by a producer goroutine: re-enter
 	// the schedule before drawing from the tape
 	simhook.Yield("stream-read")
-	n := splitSizes[s.t.Choose(len(splitSizes), "split")]
+	if s.sizes == nil {
+		// a fixed number of sizes per stream, used round robin: how many reads
+		// a stream takes must not decide how much of the tape is used
+		for i := 0; i < 16; i++ {
+			s.sizes = append(s.sizes, splitSizes[s.t.Choose(len(splitSizes), "split")])
+		}
+	}
+	n := s.sizes[s.next%len(s.sizes)]
+	s.next++
 	if n > len(p) {
 		n = len(p)
 	}
@@ -379,7 +389,19 @@ func c09Splits(r *core.Run) {
 	if standaloneVerifyErr != nil {
 		r.Failf("C09.standalone-failed", c.Mod, "%v", standaloneVerifyErr)
 	}
+	if resign != "" && (c.Mod == "jar" || c.Mod == "apk") {
+		// (jar manifests get their new entries in map order as well)
+		r.Notes["canary_exempt"] = "input signed by a module whose output depends on map iteration order"
+	}
 	if digestUnstable {
+		if resign != "" {
+			// this run started from a file this module had signed, and what the
+			// module writes depends on Go's map iteration order (appx regenerates
+			// its XML parts from maps): the input of everything that followed was
+			// not a function of the seed, so the run cannot serve as a determinism
+			// canary (its oracles compare paths within the run and stay valid)
+			r.Notes["canary_exempt"] = "input signed by a module whose output depends on map iteration order"
+		}
 		r.Probe("module-output-not-a-function-of-input")
 		for _, s := range subs {
 			s.md = nil
